@@ -230,7 +230,7 @@ static bool ParseMsg(const Case & c, const std::string & base)
       Exact y2(y); Message z; const status_t r2 = z.UnflattenFromBytes(y2.p, y2.n);
       if (r2.IsError()) Note("violations", std::string("accepted, but its own re-flattening is rejected: ") + r2(), b);
       else if (Flat(z) != y) Note("violations", "accepted, but re-flatten / re-parse is not a fixed point", b);
-      else {const Message cp(*g_reuse); if ((z == *g_reuse) != (cp == *g_reuse)) Note("violations", "accepted, but the re-parsed Message compares unequal", b);}   // (a Message holding a NaN is not == to its own copy either)
+      // (values are compared by their bytes only: a Message that holds a NaN anywhere - also in a sub-Message - is not == to an equal Message)
    }
    else
    {
@@ -302,7 +302,7 @@ static void JudgeStream(const Case & c, const char * gwName, const Pumped & p, c
    if ((c.v == "A")&&((p.msgs.empty())||(p.msgs[0] != want))) Note("violations", std::string(gwName) + ": a valid stream was not handed over as the Message it encodes (" + (p.msgs.empty() ? std::string("nothing") : Hex(p.msgs[0])) + ")", stream);
    if (((c.v == "R")||(c.v == "I"))&&(!p.msgs.empty())) Note("violations", std::string(gwName) + ": a Message was handed over although the stream does not contain one (" + c.why + ")", stream);
    if ((c.v == "RB")&&(!p.msgs.empty())) Note("drift", std::string(gwName) + ": a Message was handed over although a nested node ends after its parent", stream);
-   if ((c.v == "I")&&(p.error)) Note("drift", std::string(gwName) + ": error reported for an incomplete frame", stream);
+   if ((c.v == "I")&&(p.error)&&(R32(stream, 0) < (512u<<20))) Note("drift", std::string(gwName) + ": error reported for an incomplete frame", stream);   // (larger bodies: the allocation may fail in this harness)
    if ((haveParser)&&(parserAccepts != (!p.msgs.empty()))) Note("drift", std::string(gwName) + ": gateway and Message::UnflattenFromBytes disagree on the same body", stream);
 }
 // after a failure the gateway must work again: Reset(), then a valid frame
@@ -793,11 +793,16 @@ static void RandomCase(uint64 seed)
 }
 
 // ------------------------------------------------------------------------------------------------ nesting depth (F7)
-static std::string Nested(uint32 depth)
+static std::string Nested(uint32 depth)      // built from the outside in (linear): level i wraps the 12 + 30*(i-1) bytes of level i-1
 {
-   std::string inner = W32(CURRENT_PROTOCOL_VERSION) + W32(0) + W32(0);
-   for (uint32 i=0; i<depth; i++) inner = W32(CURRENT_PROTOCOL_VERSION) + W32(i+1) + W32(1) + W32(2) + std::string("m\0", 2) + W32(B_MESSAGE_TYPE) + W32((uint32) inner.size()+4) + W32((uint32) inner.size()) + inner;
-   return inner;
+   std::string r; r.reserve(12 + 30*(size_t) depth);
+   for (uint32 i=depth; i>=1; i--)
+   {
+      const uint32 inner = 12 + 30*(i-1);
+      r += W32(CURRENT_PROTOCOL_VERSION) + W32(i) + W32(1) + W32(2) + std::string("m\0", 2) + W32(B_MESSAGE_TYPE) + W32(inner+4) + W32(inner);
+   }
+   r += W32(CURRENT_PROTOCOL_VERSION) + W32(0) + W32(0);
+   return r;
 }
 
 int main(int argc, char ** argv)
